@@ -238,11 +238,9 @@ func implementsGuarded(p *Program, builder *ssa.Function, iface types.Type) bool
 		if !c.Call.IsInvoke() || c.Call.Method.Name() != "Implements" {
 			return false
 		}
-		// argument: reflect.TypeFor[I]()
-		if a, ok := c.Call.Args[0].(*ssa.Call); ok {
-			if f := a.Call.StaticCallee(); f != nil && f.Origin() != nil && f.Origin().Name() == "TypeFor" && len(f.TypeArgs()) == 1 {
-				return types.Identical(f.TypeArgs()[0], iface)
-			}
+		// argument: reflect.TypeFor[I](), or a package-level variable initialised once with it
+		if t := typeForOperand(p, c.Call.Args[0]); t != nil {
+			return types.Identical(t, iface)
 		}
 		return false
 	}
@@ -282,6 +280,62 @@ func implementsGuarded(p *Program, builder *ssa.Function, iface types.Type) bool
 		})
 	}
 	return n > 0 && okAll
+}
+
+// typeForOperand: v is reflect.TypeFor[T]() or a load of a package-level variable whose only assignment (in the
+// package initialiser) is such a call; returns T.
+func typeForOperand(p *Program, v ssa.Value) types.Type {
+	if a, ok := v.(*ssa.Call); ok {
+		if f := a.Call.StaticCallee(); f != nil && f.Origin() != nil && f.Origin().Name() == "TypeFor" && len(f.TypeArgs()) == 1 {
+			return f.TypeArgs()[0]
+		}
+		return nil
+	}
+	ld, ok := v.(*ssa.UnOp)
+	if !ok {
+		return nil
+	}
+	g, ok := ld.X.(*ssa.Global)
+	if !ok || g.Pkg == nil {
+		return nil
+	}
+	var found types.Type
+	n := 0
+	for _, fn := range p.OwnFuncs() {
+		allInstrs(fn, func(in ssa.Instruction) {
+			st, ok := in.(*ssa.Store)
+			if !ok || st.Addr != ssa.Value(g) {
+				return
+			}
+			n++
+			if !isInitFunc(fn) {
+				found = nil
+				n += 100
+				return
+			}
+			if t := typeForOperand(p, st.Val); t != nil {
+				found = t
+			}
+		})
+	}
+	if init := g.Pkg.Func("init"); init != nil {
+		allInstrs(init, func(in ssa.Instruction) {
+			st, ok := in.(*ssa.Store)
+			if !ok || st.Addr != ssa.Value(g) {
+				return
+			}
+			n++
+			if c, ok := st.Val.(*ssa.Call); ok {
+				if f := c.Call.StaticCallee(); f != nil && f.Origin() != nil && f.Origin().Name() == "TypeFor" && len(f.TypeArgs()) == 1 {
+					found = f.TypeArgs()[0]
+				}
+			}
+		})
+	}
+	if n >= 1 && n < 100 {
+		return found
+	}
+	return nil
 }
 
 // ---------------------------------------------------------------- R3
@@ -335,6 +389,35 @@ func (c *c02ctx) r3Typestate() {
 			if copiedInto[al] {
 				return
 			}
+			// a copy of an already existing reader (value receiver, `r := *dec`) is not a construction: it inherits the
+			// state of the reader it was copied from
+			isCopy, hasFieldStore := false, false
+			for _, g := range group {
+				for _, ref := range *g.Referrers() {
+					switch x := ref.(type) {
+					case *ssa.Store:
+						if x.Addr == ssa.Value(g) {
+							switch v := x.Val.(type) {
+							case *ssa.Parameter:
+								isCopy = true
+							case *ssa.UnOp:
+								if _, fromAlloc := v.X.(*ssa.Alloc); !fromAlloc && v.Op == token.MUL {
+									isCopy = true
+								}
+							}
+						}
+					case *ssa.FieldAddr:
+						for _, r2 := range *x.Referrers() {
+							if st, ok := r2.(*ssa.Store); ok && st.Addr == ssa.Value(x) {
+								hasFieldStore = true
+							}
+						}
+					}
+				}
+			}
+			if isCopy && !hasFieldStore {
+				return
+			}
 			n++
 			key := c.key(fn, "ttlvReader-literal")
 			// uses
@@ -374,6 +457,32 @@ func (c *c02ctx) r3Typestate() {
 						}
 					} else {
 						escapes = append(escapes, x)
+					}
+				case *ssa.UnOp:
+					// a copy passed as the value receiver of a reader method is a read by that method
+					allRecv := x.Op == token.MUL && len(*x.Referrers()) > 0
+					for _, r2 := range *x.Referrers() {
+						c2, ok := r2.(*ssa.Call)
+						if !ok || len(c2.Call.Args) == 0 || c2.Call.Args[0] != ssa.Value(x) {
+							allRecv = false
+							continue
+						}
+						id := callID(&c2.Call)
+						if id.recv != "ttlvReader" || id.pkg != ttlvPath {
+							allRecv = false
+						}
+					}
+					if !allRecv {
+						escapes = append(escapes, ref)
+						break
+					}
+					for _, r2 := range *x.Referrers() {
+						c2 := r2.(*ssa.Call)
+						if callID(&c2.Call).name == "validate" {
+							validate = c2
+						} else {
+							reads = append(reads, c2)
+						}
 					}
 				case *ssa.MakeInterface, *ssa.Return, *ssa.Store, *ssa.ChangeInterface, *ssa.MakeClosure, *ssa.Phi:
 					escapes = append(escapes, ref)
@@ -464,8 +573,17 @@ func (c *c02ctx) r3Typestate() {
 			}
 			nSub++
 			vc, ok := bufArg.(*ssa.Call)
-			if !ok || !callID(&vc.Call).is(ttlvPath, "ttlvReader", "value") || vc.Call.Args[0] != ssa.Value(sf.Params[0]) {
+			if !ok || !callID(&vc.Call).is(ttlvPath, "ttlvReader", "value") {
 				okSub = false
+			} else {
+				// receiver: the enclosing reader itself, or (value receiver) a copy loaded from it
+				rcv := vc.Call.Args[0]
+				if ld, isLd := rcv.(*ssa.UnOp); isLd && ld.Op == token.MUL {
+					rcv = ld.X
+				}
+				if rcv != ssa.Value(sf.Params[0]) {
+					okSub = false
+				}
 			}
 		})
 		switch {
